@@ -20,4 +20,4 @@ Deliver in {out}/ :
   * patch.diff — `git -C {wt} diff` of your source change only (no test files);
   * a demonstration: one new Go test file (e.g. demo_test.go, to be placed in the package directory, same package name as the package's internal tests so it can reach unexported code) that FAILS with your change and PASSES without it, deterministic, a few seconds at most;
   * meta.json — {{"property": "{pid}", "demo": [{{"src": "demo_test.go", "dst": "<path in repo where the demo file goes, e.g. pkg/x/zz_demo_{pid.lower()}_test.go>"}}], "demo_cmd": "go test -count=1 -run <TestName> ./pkg/x/", "packages": ["./pkg/x/..."], "needs": "<what is needed for the breakage to manifest>", "summary": "<what you changed and why it breaks the property>"}}.
-Verify yourself: demo passes on the clean worktree, fails with the patch; `go build ./...` works; existing tests of the touched packages pass with the patch (demo file removed while running them). When done, remove your worktree: `git -C /repo worktree remove --force {wt}`. Final answer: the summary, the needs, and the three verification results.""")
+Verify yourself: demo passes on the clean worktree, fails with the patch; `go build ./...` works; existing tests of the touched packages pass with the patch (demo file removed while running them). Never use `git stash` (the stash is shared by all worktrees of /repo and other agents work in theirs at the same time): to switch between the clean and the patched tree use `git apply -R patch.diff` / `git apply patch.diff`. The machine is loaded: a few wall-clock tests of the repository (TestWatchCoordinationWindows and TestNode_RunCoordinationLayer in pkg/tbtc, ticker / retransmission tests in pkg/net) can fail on the UNCHANGED tree too — if an existing test fails with your patch, re-run exactly that test on the clean tree before blaming your patch, and say so in meta.json. When done, remove your worktree: `git -C /repo worktree remove --force {wt}`. Final answer: the summary, the needs, and the three verification results.""")
